@@ -89,6 +89,15 @@ def gen_case(rng):
             specs.append(("S", c, float(r)))
         elif kind == "H":
             a = unit(rng, n) * float(10 ** rng.uniform(-1, 1))
+            if n >= 2 and rng.random() < 0.35:
+                # structured normals as users write them: an ordering constraint x_i <= x_j + c (normal e_i - e_j, whose
+                # components sum to zero) or a single-coordinate half-space
+                a = np.zeros(n)
+                i, j = rng.choice(n, size=2, replace=False)
+                a[i] = 1.0
+                if rng.random() < 0.7:
+                    a[j] = -1.0
+                a *= float(rng.choice([1.0, -1.0, 0.5, 2.0]))
             b = float(np.dot(a, z)) + margin * float(np.linalg.norm(a))
             specs.append(("H", a, b))
         else:
@@ -260,7 +269,7 @@ def check_case(dfols, c, want_ref=True):
     if r.sweeps > r.max_iter:
         fails.append(("C15:sweep-cap", "%d sweeps with max_iter=%d" % (r.sweeps, r.max_iter)))
     # loop exit: fewer sweeps than the cap only if the rule was met (C15_stopped_of_sweeps_lt)
-    if r.consistent and r.sweeps < r.max_iter and not r.stopped and not (r.tol != r.tol):
+    if r.consistent and r.sweeps < r.max_iter and not r.stopped_rec and not (r.tol != r.tol):
         fails.append(("C15:left-loop-early", "left after %d < %d sweeps with cI=%r >= tol=%r"
                       % (r.sweeps, r.max_iter, r.cI_hist[-1] if r.cI_hist else None, r.tol)))
     # feasibility from the stopping rule
@@ -269,8 +278,8 @@ def check_case(dfols, c, want_ref=True):
         for i, s in enumerate(specs):
             d = dc.dist_to_set(s, r.x)
             if not d <= bound:
-                fails.append(("C15:feasibility-bound", "stopped by rule (cI=%.3e < tol=%.3e) but dist to set %d (%s) = %.6e > sqrt(p*tol) = %.6e"
-                              % (r.cI_hist[-1], r.tol, i, s[0], d, bound)))
+                fails.append(("C15:feasibility-bound", "stopped by rule (cI=%s < tol=%.3e, %d of at most %d sweeps) but dist to set %d (%s) = %.6e > sqrt(p*tol) = %.6e"
+                              % ("%.3e" % r.cI_hist[-1] if r.cI_hist else "not recorded", r.tol, r.sweeps, r.max_iter, i, s[0], d, bound)))
                 break
     # last set a box: exactly inside
     if specs[-1][0] == "B" and r.max_iter >= 1 and not dc.in_box_exact(specs[-1], r.x):
